@@ -208,7 +208,8 @@ def recipe(draw, forms=None):
         if tmpl == "budget":
             # BIP342 sigops budget: 50 + witness size, minus 50 per executed check with a non-empty signature (whatever the key type).
             # One witness signature is re-used with OP_DUP so that the budget does not grow with the number of checks.
-            n_checks = draw(st.integers(1, 16))
+            # (the budget is 50 + the witness size, about 36 per check: with one reused signature it runs out between 13 and 16 checks, depending on the key's size)
+            n_checks = draw(st.sampled_from([1, 2, 5, 10, 12, 13, 14, 15, 16, 17, 20]))
             kstyle = draw(st.sampled_from(["xonly", "xonly", "xonly33", "compressed", "short"]))
             k = draw(st.integers(0, 3))
             r["unlock"] = [["sig", k, draw(st.sampled_from(["valid", "valid", "valid", "empty", "wrong-msg"])), draw(st.sampled_from(["default", "default", 1, 0x83]))]]
@@ -279,11 +280,12 @@ def recipe(draw, forms=None):
     elif form.startswith("ms_"):
         n = draw(st.sampled_from([1, 2, 3, 3, 15, 20, 21]))
         m = draw(st.integers(0, min(n, 4)))
-        if n <= 3 and draw(st.integers(0, 11)) == 0:
+        if n <= 3 and draw(st.integers(0, 23)) == 13:
             m = n + 1  # more signatures asked for than there are keys (SIG_COUNT)
         r["n"], r["m"] = n, m
         good = draw(st.integers(0, 2)) > 0  # two thirds of the multisigs have only well-formed keys, so that signature-side rules are reached
         r["key_styles"] = [draw(st.sampled_from(["compressed", "compressed", "uncompressed"])) if good else draw(key_style()) for _ in range(min(n, 4))]
+        pattern = None
         if draw(st.integers(0, 4)) and m <= min(n, 4):
             # well-shaped: exactly m signatures for an increasing choice of keys, each slot valid / empty / one of the malformed styles
             ks = sorted(draw(st.lists(st.integers(0, min(n, 4) - 1), min_size=m, max_size=m, unique=True)))
@@ -313,6 +315,10 @@ def recipe(draw, forms=None):
             r["sorted_sigs"] = False
         r["dummy"] = draw(st.sampled_from(["", "", "00", "01", "51"]))
         r["verify_variant"] = draw(st.sampled_from([False, True, "not", "not"]))
+        if pattern in ("tail-valid", "head-valid") and m >= 2 and draw(st.booleans()):
+            # some signatures verify, the others are empty, the op fails as a whole: NULLFAIL's case, which shows in the verdict only where a false result is tolerated
+            r["verify_variant"] = "not"
+            r["dummy"] = ""
         r["m_push"] = draw(st.sampled_from(["op", "op", "nonminimal"]))
     else:  # witness_unknown
         r["wit_version"] = draw(st.integers(1, 16))
@@ -322,9 +328,9 @@ def recipe(draw, forms=None):
         r["p2sh_wrap"] = draw(st.booleans())
         r["witness"] = draw(st.lists(st.binary(max_size=4).map(bytes.hex), max_size=2))
     r["scriptsig_variant"] = draw(st.sampled_from(["exact", "exact", "exact", "extra-push", "pushdata1", "nonpush", "empty"]))
-    r["stray_witness"] = draw(st.integers(0, 7)) == 0
-    r["drop_witness"] = draw(st.integers(0, 15)) == 0  # a witness program spent with no witness at all
-    r["stray_scriptsig"] = draw(st.integers(0, 7)) == 0
+    r["stray_witness"] = draw(st.integers(0, 15)) == 9  # (one case in ten or so: Hypothesis draws 0 and the ends of a range far more often than the middle)
+    r["drop_witness"] = draw(st.integers(0, 31)) == 19  # a witness program spent with no witness at all (a value off the ends and off zero: Hypothesis favours those)
+    r["stray_scriptsig"] = draw(st.integers(0, 15)) == 9
     r["annex"] = draw(st.sampled_from([None, None, None, "50", "50aabb"]))
     r["leaf_version"] = draw(st.sampled_from([0xC0, 0xC0, 0xC0, 0xC2, 0x66]))
     r["control_depth"] = draw(st.integers(0, 2))
